@@ -27,6 +27,20 @@ typedef struct {
     const char* in_path;   /* --in FILE: inputs produced by the Lean side (components with a pregen step) */
 } hctx;
 
+/* hang detector for forked children: fires after `cpu_s` seconds of CPU time consumed by this process (user + system),
+ * so a loaded machine or a slow sanitizer allocation does not look like a hang; wall-clock backstop 30x. */
+#include <sys/time.h>
+#include <signal.h>
+#include <unistd.h>
+static inline void h_cpu_alarm(int cpu_s, void (*handler)(int)) {
+    struct itimerval it; memset(&it, 0, sizeof it); it.it_value.tv_sec = cpu_s;
+    signal(SIGPROF, handler); setitimer(ITIMER_PROF, &it, NULL);
+    signal(SIGALRM, handler); alarm((unsigned)cpu_s * 30u);
+}
+static inline void h_cpu_alarm_off(void) {
+    struct itimerval it; memset(&it, 0, sizeof it); setitimer(ITIMER_PROF, &it, NULL); alarm(0);
+}
+
 static inline uint64_t h_next(hctx* h) {
     uint64_t z = (h->rng += 0x9E3779B97F4A7C15ull);
     z = (z ^ (z >> 30)) * 0xBF58476D1CE4E5B9ull;
